@@ -8,6 +8,13 @@ CHECKS = {
  'C01': dict(cat='proof', tech='Lean 4 proof (invariant by induction over arbitrary event lists) + model/implementation correspondence on recorded traces',
    text='Lean theorems over the trace-callback machine (hits_exact, hits_invariant, unexecuted_absent; refinement abs_run from the hash-map machine the driver executes) hold for every event list, any threads, recursion, suspension; the executable model is tied to the real Cython callback + get_stats by K01 on recorded traces of generated programs; an independent oracle (the interpreter\'s own line events) turns any disagreement into a concrete failing program.',
    note=TB + 'Assumes NoCollision of hash(co_code) XOR line (checked on each run\'s concrete hashes) and that the sys.settrace recording predicts the C-level events (checked by K01 itself). A line in flight when the profiler is disabled is dropped by design.', ref='§4, §6 C01'),
+
+ 'C05': dict(cat='proof', tech='Lean 4 proof (invariant by induction over arbitrary by-count histories from arbitrary threads) + correspondence on the real profilers',
+   text='Lean theorems over the transcribed enable_by_count/disable_by_count: tracing_iff_positive, count_clipped (entries minus exits clipped at 0, thread-local), call_restores (every well-bracketed nest leaves count, tracing and tool id as found), enable_ok (never raises). K05 observes (enable_count, trace slot, sys.monitoring tool id) on the real LineProfiler and ContextualProfile after every operation and inside decorated bodies for all short and many random histories from 1-3 threads.',
+   note=TB + 'Thread operations are serialised by the harness; the wrappers\' bracket structure (enable; try; finally disable) is what the harness feeds the model, so a wrapper that stops bracketing shows as a K05/oracle disagreement. Direct enable()/disable() excluded as in the property.', ref='§6 C05'),
+ 'C12': dict(cat='proof', tech='Lean 4 proof (monotonicity by induction over event lists) + correspondence over histories with the virtual clock',
+   text='Lean: every stored hit counter only grows under any event list (hits_monotone); the model of get_stats is a pure function of the state. K12 drives the real profiler (virtual clock) and the model through random histories of add/decorate (repeated), enable/disable windows, calls and snapshots and compares every snapshot; the oracle checks that nothing recorded disappears or decreases between real snapshots, that removing intermediate snapshots changes nothing, and that entries are sorted, unique, inside the function span, hits>=1, time>=0.',
+   note=TB + 'Time is made comparable by wrapping timers.c with a virtual clock in the scratch build only. F-C12a (get_stats overwrote same-label code objects) was found by this check and fixed in /repo (abc378f).', ref='§6 C12'),
 }
 NA = {}
 
